@@ -173,6 +173,14 @@ type State struct {
 	// accelChecked is true if acceleration detection has been attempted.
 	// This prevents repeated detection attempts on non-accelerable states.
 	accelChecked bool
+
+	// eoiChecked is true once eoiMatch has been computed (see DFA.checkEOIMatch).
+	eoiChecked bool
+
+	// eoiMatch caches whether this state matches at end of input once the
+	// assertions that hold there ($, \z, \b/\B) are resolved. It depends only on
+	// nfaStates and isFromWord, so it is computed at most once per state.
+	eoiMatch bool
 }
 
 // NewState creates a new DFA state with the given ID and NFA state set.
